@@ -11,7 +11,7 @@ sys.path.insert(0, os.path.join(V, 'tools'))
 ENV = dict(os.environ)
 def sh(cmd, cwd=None):
     return subprocess.run(['bash', '-c', '. %s/env.sh; %s' % (V, cmd)], cwd=cwd, capture_output=True, text=True)
-SCR = '/tmp/verif-selftest'
+SCR = '/tmp/verif-selftest-%d' % os.getpid()
 def worktree(name):
     d = os.path.join(SCR, name)
     sh('git -C /repo worktree remove --force %s' % d)
@@ -50,7 +50,7 @@ def gen():
                 json.dump(meta, open(out[:-6] + '.json', 'w'))
                 print('generated', out)
             rmtree(d)
-def run(filter_=None):
+def run(filter_=None, prop=None):
     res = []
     allprops = ['C%02d' % i for i in range(1, 21)]
     cases = [(p, 'refactor') for p in sorted(glob.glob(V + '/refactors/*.patch'))] + [(p, 'mutant') for p in sorted(glob.glob(V + '/mutants/*/*.patch'))]
@@ -58,6 +58,7 @@ def run(filter_=None):
         cid = os.path.basename(patch)[:-6]
         if filter_ and filter_ not in cid: continue
         meta = json.load(open(patch[:-6] + '.json'))
+        if prop and not (meta.get('expect') == prop or prop in meta.get('run', [])): continue
         d = worktree('run-' + cid)
         a = sh('git apply %s' % patch, cwd=d)
         entry = {'case': cid, 'kind': kind}
@@ -69,6 +70,7 @@ def run(filter_=None):
                 entry['outcome'] = 'does-not-build'
             else:
                 props = meta.get('run') or [meta['expect']]
+                if prop: props = [prop]
                 if kind == 'refactor' and os.environ.get('SELFTEST_ALL'): props = allprops
                 fired = {}
                 ev = os.path.join(SCR, 'ev-' + cid); os.makedirs(ev, exist_ok=True)
@@ -94,9 +96,11 @@ def run(filter_=None):
     os.makedirs(os.path.join(V, 'selftest'), exist_ok=True)
     summ = {}
     for e in res: summ[e['kind'] + ':' + e['outcome']] = summ.get(e['kind'] + ':' + e['outcome'], 0) + 1
-    json.dump({'summary': summ, 'cases': res}, open(os.path.join(V, 'selftest', 'result.json'), 'w'), indent=1)
+    name = 'result.json' if not prop else 'result-%s.json' % prop
+    json.dump({'summary': summ, 'cases': res, 'at': time.time()}, open(os.path.join(V, 'selftest', name), 'w'), indent=1)
     print(summ)
 if __name__ == '__main__':
     if sys.argv[1] == 'gen': gen()
+    elif sys.argv[1] == 'prop': run(None, sys.argv[2])
     else: run(sys.argv[2] if len(sys.argv) > 2 else None)
     shutil.rmtree(SCR, ignore_errors=True)
